@@ -66,3 +66,35 @@ def replay_history(make, step, history):
     for op in history:
         bad.extend(step(system, op, True))
     return bad
+
+
+_SIMPLE = (int, float, str, bytes, bool, type(None))
+
+
+def generic_state(obj, depth=2, skip=()):
+    """A hashable picture of *every* instance attribute of obj (recursively to `depth` for plain objects), so that a field
+    the checker's author did not know about - e.g. a cache added by a later change - still distinguishes states.
+    File objects, callables and large buffers are represented by their type (and length) only."""
+    out = []
+    d = getattr(obj, '__dict__', None)
+    if d is None:
+        return (type(obj).__name__,)
+    for name in sorted(d):
+        if name in skip:
+            continue
+        v = d[name]
+        if isinstance(v, _SIMPLE):
+            out.append((name, v if not isinstance(v, (bytes, str)) or len(v) < 64 else (len(v), hash(v))))
+        elif isinstance(v, (list, tuple)) and len(v) < 32 and all(isinstance(x, _SIMPLE) for x in v):
+            out.append((name, tuple(v)))
+        elif isinstance(v, dict) and len(v) < 64:
+            out.append((name, tuple(sorted((repr(k)[:80], repr(val)[:120]) for k, val in v.items()))))
+        elif isinstance(v, (bytearray, memoryview)):
+            out.append((name, ('buf', len(v), hash(bytes(v)))))
+        elif hasattr(v, 'read') and hasattr(v, 'seek'):
+            out.append((name, 'file'))
+        elif depth > 0 and hasattr(v, '__dict__') and not callable(v):
+            out.append((name, generic_state(v, depth - 1, skip)))
+        else:
+            out.append((name, type(v).__name__))
+    return tuple(out)
